@@ -213,7 +213,14 @@ class Analysis:
                 nm = _call_name(node)
                 f = node.func
                 if nm in ('register_buffer', 'register_parameter') and isinstance(f, ast.Attribute):
-                    exact, suf = _const_str(node.args[0]) if node.args else (None, None)
+                    a0 = node.args[0] if node.args else None
+                    if isinstance(a0, ast.Name):
+                        # name held in a local variable:  name = self.prefix + 'feat_calc_x'
+                        for st in ast.walk(m.node):
+                            if isinstance(st, ast.Assign) and any(isinstance(t, ast.Name) and t.id == a0.id for t in st.targets):
+                                a0 = st.value
+                                break
+                    exact, suf = _const_str(a0) if a0 is not None else (None, None)
                     persistent = True
                     for kw in node.keywords:
                         if kw.arg == 'persistent':
@@ -223,8 +230,9 @@ class Analysis:
                     kind = 'param' if nm == 'register_parameter' else 'buf'
                     if isinstance(f.value, ast.Name) and f.value.id == sn and exact is not None:
                         self.regs.setdefault(exact, []).append((kind, persistent, m.name))
-                    elif suf is not None:
-                        self.foreign.append((suf, persistent, m.name))
+                    else:
+                        # registered on another object (or under a computed name)
+                        self.foreign.append((suf or '<dynamic>', persistent, m.name))
                 if nm == 'setattr' and isinstance(f, ast.Name) and len(node.args) >= 2 and \
                         isinstance(node.args[0], ast.Name) and node.args[0].id == sn:
                     exact, _ = _const_str(node.args[1])
@@ -523,10 +531,14 @@ def classify(cls, ext):
                 why.append('non-persistent buffer')
         rows.append({'cls': cls.__name__, 'field': fld, 'kind': kind, 'read': bool(read_in),
                      'late': fld in late and st in ('param', 'pbuf'), 'nbuf': st == 'nbuf', 'why': '; '.join(why)})
+    # a registration on another module is part of construction only when it happens on the paths
+    # conversion runs: the constructor chain and the calculators' `register` hook
+    construction = A._reach({'__init__', 'register'})
     for suf, persistent, mn in A.foreign:
         rows.append({'cls': cls.__name__, 'field': '*' + suf, 'kind': 'pbuf' if persistent else 'volatile',
-                     'read': True, 'late': False, 'nbuf': not persistent,
-                     'why': 'buffer registered on another module in ' + mn})
+                     'read': True, 'late': mn not in construction, 'nbuf': not persistent,
+                     'why': 'buffer registered on another module in ' + mn +
+                            ('' if mn in construction else ' (not a construction path: the key appears later)')})
     return rows
 
 
